@@ -78,29 +78,31 @@ class Names:
         self.step_unit = st
         self.step = st.node.name
         self.value = self.key = None
-        pulled = keyed = None
-        for s_ in own_nodes(st.node):
-            if isinstance(s_, ast.Assign) and isinstance(s_.value, ast.Await) and isinstance(s_.value.value, ast.Call):
-                c = s_.value.value
-                tgt = s_.targets[0]
-                if norm(c.func).endswith("anext") and isinstance(tgt, ast.Name):
-                    pulled = tgt.id
-                elif isinstance(tgt, ast.Name) and len(c.args) == 1 and isinstance(c.args[0], ast.Name):
-                    keyed = tgt.id
-        for s_ in own_nodes(st.node):
-            if isinstance(s_, ast.Assign):
-                pairs = []
-                for t in s_.targets:
-                    if isinstance(t, ast.Tuple) and isinstance(s_.value, ast.Tuple):
-                        pairs += list(zip(t.elts, s_.value.elts))
-                    else:
-                        pairs.append((t, s_.value))
-                for t, v in pairs:
-                    if isinstance(t, ast.Attribute) and norm(t.value) == "self" and isinstance(v, ast.Name):
-                        if v.id == pulled:
-                            self.value = t.attr
-                        if v.id == keyed:
-                            self.key = t.attr
+        # by origin: the field that receives the pulled item, and the field that receives the awaited
+        # result of the key callable (whatever the statement shapes are)
+        scfg = cfg_of(st)
+        for n in scfg.nodes:
+            if n.kind != "store" or n.tag:
+                continue
+            fields = []
+            for t in n.info.get("targets", []):
+                for x in (t.elts if isinstance(t, ast.Tuple) else [t]):
+                    if isinstance(x, ast.Attribute) and norm(x.value) == "self":
+                        fields.append(x)
+            if not fields:
+                continue
+            val = n.info.get("value")
+            for x in fields:
+                vexpr = val
+                if isinstance(val, ast.Tuple):
+                    for t in n.info.get("targets", []):
+                        if isinstance(t, ast.Tuple) and x in t.elts and len(t.elts) == len(val.elts):
+                            vexpr = val.elts[t.elts.index(x)]
+                kinds = {a[0] for a in ctx.vals.expr(st, vexpr, n)} if vexpr is not None else set()
+                if kinds & {"item", "usernext"} and not kinds & {"result"}:
+                    self.value = x.attr
+                elif kinds & {"result", "userawait"}:
+                    self.key = x.attr
         g = ctx.pkg.cls("itertools._Grouper")
         init = g.methods.get("__init__")
         self.group_key = self.group_state = None
@@ -408,6 +410,11 @@ def r16_3_state(ctx, N) -> None:
                 p in tests and lab == tests[p]))
             ctx.check(path is None and bool(tests), "R16.3", g, a, "the cursor advances only when no unconsumed item is held "
                       "(an item is never overwritten)", node=a, witness=pretty_path(path))
+    publish_rule(ctx, N, "R16.3")
+
+
+def publish_rule(ctx, N, rid: str) -> None:
+    """pull and key call form one step: the cursor never holds an item whose key was not computed"""
     st = N.step_unit
     cfg = cfg_of(st)
     awaits = [n for n in cfg.nodes if n.kind == "await" and not n.tag]
@@ -421,10 +428,10 @@ def r16_3_state(ctx, N) -> None:
         for p_ in pubs:
             path = find_path(p_, lambda x: x.kind == "await", edge_ok=lambda a, lab, b: lab not in ("e", "p"))
             ok = ok and path is None
-    ctx.check(ok, "R16.3", st, pubs[0] if pubs else "step", "item and key are published together after the key function "
+    ctx.check(ok, rid, st, pubs[0] if pubs else "step", "item and key are published together after the key function "
               "has returned (no suspension point at which the cursor holds an item with a stale key)")
     order = [norm(a.info.get("value")) for a in awaits]
-    ctx.check(len(order) == 2 and "anext" in order[0] and "anext" not in order[1], "R16.3", st, "step",
+    ctx.check(len(order) == 2 and "anext" in order[0] and "anext" not in order[1], rid, st, "step",
               "the key function is applied to the freshly pulled item", witness=str(order))
 
 
